@@ -91,6 +91,7 @@ PROPS = {
     "C17": dict(
         title="CLP(FD) labelling completeness and uniqueness",
         props_module="PvModel.Props.C17",
+        props_extra=["PvModel.Props.C17Label"],
         rule="the C16 generator; oracle: brute force over the window projected on the query variables — every solution is returned exactly once per "
              "disjunction path it satisfies; non-trivial = >1 solution or >=1 answer; distinct = distinct case lines",
         trusted=SEARCH_TRUST,
